@@ -231,7 +231,11 @@ def output_refs(xform: str, rootname: str) -> list:
         for m in tok.finditer(text):
             pe = abstract.parse_ref_output(m.group(1), rootname)
             if pe is not None:
-                out.append({"ctx": ctx, "e": pe, "where": where})
+                # inside the argument list of indexed-repeat() paths are absolute by design
+                before = text[:m.start()]
+                k = before.rfind("indexed-repeat(")
+                in_ir = k >= 0 and before[k:].count("(") > before[k:].count(")")
+                out.append({"ctx": ctx, "e": pe, "where": where, "in_ir": in_ir})
 
     for b in project.binds(root):
         ctx = below(b["nodeset"])
@@ -249,6 +253,8 @@ def output_refs(xform: str, rootname: str) -> list:
                     scan(ctx, p[1], key + "/output")
         if c["itemset"] and "[" in (c["itemset"]["nodeset"] or ""):
             scan(ctx, c["itemset"]["nodeset"].split("[", 1)[1], "itemset predicate")
+        elif c["itemset"] and (c["itemset"]["nodeset"] or "").startswith("randomize("):
+            scan(ctx, c["itemset"]["nodeset"].split(",", 1)[1] if "," in c["itemset"]["nodeset"] else "", "itemset seed")
     for a in project.all_setvalues(root):
         scan(below(a.get("ref")), a.get("value"), "setvalue/@value")
     it = project.itext(root)
